@@ -24,6 +24,7 @@ def run(ctx):
     from . import c08
     ctx.uses('pubsub')
     c08.r81(ctx)
+    c08.r89_listener_identity(ctx)
     T.r111_subscriptions(ctx)
     T.r112_notify_dispatch(ctx)
     T.r113_model_registration(ctx)
